@@ -51,6 +51,9 @@ type FanSpec struct {
 	Alg       AlgSpec
 	NoAttach  bool        // do not attach RPM curve data (the controller's Run does it)
 	CfgMap    map[int]int // pwmMap given in the configuration
+	// NoGetPwm / NoGetRpm: a command fan whose optional getPwm / getRpm command is not configured
+	NoGetPwm bool
+	NoGetRpm bool
 }
 
 func ip(v int) *int { return &v }
@@ -200,8 +203,11 @@ func BuildFanP(e *Env, spec FanSpec, id, curveId string, pwm0, mode0 int, px str
 			SetPwm: &configuration.ExecConfig{Exec: filepath.Join(sub, "setpwm.sh"), Args: []string{"%pwm%"}},
 			GetPwm: &configuration.ExecConfig{Exec: filepath.Join(sub, "getpwm.sh")},
 		}
-		if spec.HasRpm {
+		if spec.HasRpm && !spec.NoGetRpm {
 			cc.GetRpm = &configuration.ExecConfig{Exec: filepath.Join(sub, "getrpm.sh")}
+		}
+		if spec.NoGetPwm {
+			cc.GetPwm = nil
 		}
 		cfg.Cmd = cc
 	default:
